@@ -119,6 +119,15 @@ def gen_project(rng, idx, shape=None):
         a0 = [s["alias"] for f in fnames for s in specs[f] if s["path"] == p and s["alias"]][0]
         if place(p, a0) is not None:
             features.append("same-pair-twice")
+    # the same package imported bare twice (one import since 4a102aa): in another file, or in the same file
+    if root_paths and rng.random() < 0.45:
+        p = rng.choice(root_paths)
+        holders = [f for f in fnames if any(sp["path"] == p and not sp["alias"] for sp in specs[f])]
+        if rng.random() < 0.4 and holders:
+            specs[holders[0]].append({"path": p, "alias": "", "same_file_again": True})
+            features.append("bare-twice-same-file")
+        elif place(p, "") is not None:
+            features.append("bare-twice-two-files")
     # a path imported both named and as a root import: its functions become root targets as well
     if named_paths and rng.random() < 0.3:
         p = rng.choice(named_paths)
@@ -194,6 +203,8 @@ def gen_project(rng, idx, shape=None):
                 continue
             r = rng.random()
             sp["local"] = "_"
+            if sp.get("same_file_again"):
+                continue                               # a second import of the path in this file: blank
             if r < 0.40 and pk["name"] not in taken:
                 sp["local"] = ""                      # plain: the package name
                 taken.add(pk["name"])
@@ -277,8 +288,8 @@ def render(pr, order=None):
         for s in pr["specs"][f]:
             imps.append("\t// mage:import" + (" " + s["alias"] if s["alias"] else ""))
             pk = pr["pkgs"].get(s["path"])
-            real = f == pr["holder"] and pk is not None and pr["holder_imports"].get(pk["name"]) == s["path"]
-            loc = "" if real else (s.get("local", "_") if pk is not None else "_")
+            real = f == pr["holder"] and pk is not None and pr["holder_imports"].get(pk["name"]) == s["path"] and not s.get("same_file_again")
+            loc = "" if real else (s.get("local", "_") if pk is not None and not s.get("same_file_again") else "_")
             imps.append('\t%s"%s/%s"' % ((loc + " ") if loc else "", mod, s["path"]))
             if loc != "_" and not real:
                 uses.append("var _ = %s.%s\n" % (loc or pk["name"], pk["funcs"][0][0]))      # a named import must be used
@@ -316,7 +327,7 @@ def render(pr, order=None):
 def competing(pr):
     """how many pairs of entries compete for a unique name / a map slot"""
     named, roots = {}, []          # named: path -> distinct aliases (each (path, alias) pair is one import)
-    same_pair = 0
+    same_pair = bare_again = 0
     for f in pr["files"]:
         for s in pr["specs"][f]:
             if s["alias"]:
@@ -324,14 +335,16 @@ def competing(pr):
                     same_pair += 1
                 else:
                     named[s["path"]].append(s["alias"])
+            elif s["path"] in roots:
+                bare_again += 1
             else:
                 roots.append(s["path"])
     pname = lambda p: pr["pkgs"].get(p, {"name": "?"})["name"]
     by_local = {}
     for f in pr["files"]:
         for s in pr["specs"][f]:
-            real = f == pr["holder"] and pr["holder_imports"].get(pname(s["path"])) == s["path"]
-            loc = "" if real else s.get("local", "_")
+            real = f == pr["holder"] and pr["holder_imports"].get(pname(s["path"])) == s["path"] and not s.get("same_file_again")
+            loc = "" if real else ("_" if s.get("same_file_again") else s.get("local", "_"))
             if loc != "_" and s["path"] in pr["pkgs"]:
                 by_local.setdefault(loc or pname(s["path"]), set()).add(s["path"])
     for n, p in pr["holder_imports"].items():
@@ -343,7 +356,7 @@ def competing(pr):
             c[pname(p)] = c.get(pname(p), 0) + 1
         return sum(n * (n - 1) // 2 for n in c.values())
     return {"named_pairs_equal_name": pairs([p for p, al in named.items() for _ in al]), "root_pairs_equal_name": pairs(roots),
-            "same_path_and_alias_twice": same_pair,
+            "same_path_and_alias_twice": same_pair, "bare_import_of_one_package_again": bare_again,
             "paths_with_two_aliases": sum(1 for a in named.values() if len(a) > 1),
             "named_and_root": len(set(named) & set(roots)),
             "local_names_for_different_packages_in_different_files": sum(1 for n, ps in by_local.items() if len(ps) > 1),
